@@ -7,6 +7,7 @@ from .data_types import (
     is_alias,
     is_composite_type,
     is_list_type,
+    is_map_type,
     is_nullable_type,
 )
 
@@ -233,10 +234,23 @@ class ApiNamespace:
                 return
             elif alias.namespace != self:
                 return
-            if is_alias(alias.data_type):
-                add_alias(alias.data_type)
+            for referenced_alias in referenced_aliases(alias.data_type):
+                add_alias(referenced_alias)
             linearized_aliases.append(alias)
             seen_aliases.add(alias)
+
+        def referenced_aliases(data_type):
+            # type: (DataType) -> typing.List[Alias]
+            # The aliases a type expression is built from: the alias itself,
+            # or the ones found inside nullable, List and Map wrappers.
+            if is_alias(data_type):
+                return [data_type]
+            elif is_nullable_type(data_type) or is_list_type(data_type):
+                return referenced_aliases(data_type.data_type)
+            elif is_map_type(data_type):
+                return (referenced_aliases(data_type.key_data_type) +
+                        referenced_aliases(data_type.value_data_type))
+            return []
 
         for alias in self.aliases:
             add_alias(alias)
